@@ -273,7 +273,11 @@ impl Codec<Id> for FixCodec {
     type Error = CodecErr;
     fn encode_header(&mut self, h: &Header<Id>, mut buf: impl BufMut) -> Result<(), CodecErr> {
         let v = self.header_bytes(h);
-        if buf.remaining_mut() < v.len() {
+        // Like the serde-based codecs: write as it goes and report "buffer
+        // full" afterwards, so a failed header leaves partial bytes behind
+        let room = buf.remaining_mut();
+        if room < v.len() {
+            buf.put_slice(&v[..room]);
             return Err(CodecErr("no space for header"));
         }
         buf.put_slice(&v);
